@@ -72,6 +72,12 @@ CHECKS = [
               "unknown keys (ValueError, state unchanged), typing.no_type_check above/below the decorator, calls from another thread, well- and "
               "ill-typed argument lists over C07's signatures; JAXTYPING_DISABLE spellings and a hooked module in subprocesses.",
          note="new-style decorator only; the undecorated twin is a second compilation of the same generated source"),
+    dict(property_id="C20", level="exploration", design_ref="DESIGN.md §5 C20",
+         technique="Hypothesis-generated annotations round-tripped through pickle 0-5 / cloudpickle / copy / deepcopy in-process and into a fresh subprocess; metamorphic equality of acceptance vectors (original vs reconstruction, original before vs after)",
+         text="The acceptance vector over ~120 probe values x 2 contexts of every reconstructed annotation must equal the original's, the original must be "
+              "unchanged by dumping/loading, look-alike (nested vs flat) annotations are loaded one after the other, and pickle/cloudpickle payloads are "
+              "re-evaluated in a fresh interpreter.",
+         note="probe set is finite (9 dtypes x 9 shapes + duck + jax arrays + non-arrays); user categories from the importable module vf/usercats.py"),
 ]
 _pending = "check not built yet in this round (will be claimed once its machinery is committed)"
 NOT_APPLICABLE = [dict(property_id=f"C{i:02d}", reason=_pending) for i in range(1, 21)
